@@ -13,6 +13,7 @@ package main
 import (
 	"bytes"
 	"context"
+	"encoding/hex"
 	"encoding/json"
 	"errors"
 	"fmt"
@@ -75,9 +76,9 @@ type config struct {
 	CapValues  uint64 `json:"capacity_value_bytes"`
 	// WorkingSetNodes is 2D+4 for this history; class "tiny" iff 0 < CapNodes < WorkingSetNodes.
 	WorkingSetNodes uint64 `json:"working_set_nodes"`
-	Mechanism  string `json:"overlay_mechanism"` // raw | ctx
-	StartVer   uint64 `json:"start_version"`
-	Finalize   bool   `json:"finalize_every_version"`
+	Mechanism       string `json:"overlay_mechanism"` // raw | ctx
+	StartVer        uint64 `json:"start_version"`
+	Finalize        bool   `json:"finalize_every_version"`
 }
 
 func (c *config) tag(layer string) string {
@@ -139,6 +140,8 @@ func main() {
 		replay(run.ReplayFile)
 		return
 	}
+
+	runCanaries()
 
 	n := run.Pick(2000, 60000)
 	deadline := time.Now().Add(time.Duration(run.Pick(20, 90)) * time.Minute)
@@ -751,10 +754,46 @@ func execute(cfg *config, ops []op, st *stats) (f *failure) {
 
 // ---------------------------------------------------------------------------
 
+// Shrinking is done for the first two failures of a signature (and for reclassification
+// candidates). evid keeps the first three witnesses per signature in arrival order, so later
+// failures of the same signature wait until the shrinking ones have been reported.
+type sigState struct{ n, inflight int }
+
 var (
-	shrinkMu    sync.Mutex
-	shrinkCount = map[string]int{}
+	sigMu   sync.Mutex
+	sigCond = sync.NewCond(&sigMu)
+	sigTab  = map[string]*sigState{}
 )
+
+func enterReport(sig string, force bool) (doShrink bool) {
+	sigMu.Lock()
+	defer sigMu.Unlock()
+	st := sigTab[sig]
+	if st == nil {
+		st = &sigState{}
+		sigTab[sig] = st
+	}
+	st.n++
+	doShrink = st.n <= 2 || force
+	if doShrink {
+		st.inflight++
+		return true
+	}
+	for st.inflight > 0 {
+		sigCond.Wait()
+	}
+	return false
+}
+
+func leaveReport(sig string, didShrink bool) {
+	if !didShrink {
+		return
+	}
+	sigMu.Lock()
+	sigTab[sig].inflight--
+	sigCond.Broadcast()
+	sigMu.Unlock()
+}
 
 func runCase(i int) {
 	rng := run.Rand(uint64(i))
@@ -810,10 +849,8 @@ func runCase(i int) {
 	// survives in the minimal history the failure is filed under its own family.
 	underflowCandidate := cfg.CapClass == "default" && cfg.Backend != lab.BackendNop &&
 		strings.HasPrefix(classifyLostNode(ops[:f.Step+1]), "after-overwrite")
-	shrinkMu.Lock()
-	shrinkCount[f.Sig]++
-	doShrink := shrinkCount[f.Sig] <= 2 || underflowCandidate
-	shrinkMu.Unlock()
+	doShrink := enterReport(f.Sig, underflowCandidate)
+	defer leaveReport(f.Sig, doShrink)
 	sig := f.Sig
 	if doShrink {
 		w.Minimal = shrink(ops, func(h []op) bool {
@@ -865,6 +902,66 @@ func shrink(hist []op, fails func([]op) bool) []op {
 	return cur
 }
 
+// ---------------------------------------------------------------------------
+// Canaries: fixed minimal witnesses of the open finding "node cache capacity below the working
+// set of one operation", executed at start-up so that its signatures are reported by every run
+// independently of the seed. They go through the same classification rule as generated
+// histories (class "tiny" iff 0 < node capacity < 2D+4) and are silent once the defect is gone.
+
+func runCanaries() {
+	h := func(s string) []byte {
+		b, _ := hex.DecodeString(s)
+		if b == nil {
+			b = []byte{}
+		}
+		return b
+	}
+	type canary struct {
+		name string
+		cfg  config
+		ops  []op
+	}
+	canaries := []canary{
+		{"tiny-cache-wrong-answer",
+			config{Backend: lab.BackendBadger, Capacity: "n2v16", CapClass: "tiny", CapSet: true, CapNodes: 2, CapValues: 16, Mechanism: "raw", StartVer: 1000},
+			[]op{
+				mk(opInsert, h("7f21"), h("807f80"), nil, 0), mk(opInsert, h("62"), h("7f62"), nil, 0),
+				mk(opInsert, h("01ff7f7f"), h("627f"), nil, 0), mk(opInsert, h("8062"), h("62"), nil, 0),
+				mk(opCommit, nil, nil, nil, 0), mk(opInsert, h("6100"), h("7f"), nil, 0), mk(opFullIter, h("8062"), nil, nil, 0),
+			}},
+		{"tiny-cache-panic",
+			config{Backend: lab.BackendPathBadger, Capacity: "n1v1", CapClass: "tiny", CapSet: true, CapNodes: 1, CapValues: 1, Mechanism: "raw", StartVer: 0},
+			[]op{
+				mk(opInsert, h("008062808062"), h("617f"), nil, 0), mk(opInsert, h("0101"), h("8062"), nil, 0),
+				mk(opInsert, h("0080628061"), h(""), nil, 0), mk(opCommit, nil, nil, nil, 0),
+				mk(opInsert, h("00806280"), h("8001"), nil, 0), mk(opReopen, nil, nil, nil, 0),
+			}},
+	}
+	for ci := range canaries {
+		c := &canaries[ci]
+		var universe [][]byte
+		maxValue := 0
+		for i := range c.ops {
+			if c.ops[i].Op == opInsert {
+				universe = append(universe, c.ops[i].k)
+				if len(c.ops[i].v) > maxValue {
+					maxValue = len(c.ops[i].v)
+				}
+			}
+		}
+		sizeFit(&c.cfg, universe, maxValue)
+		run.Eval(1)
+		run.Count("canary_cases", 1)
+		f := execute(&c.cfg, c.ops, nil)
+		if f == nil {
+			run.Count("canary_cases_passed", 1)
+			continue
+		}
+		run.Violation(f.Sig, "canary "+c.name+": "+f.What+fmt.Sprintf(" got=%s want=%s", f.Got, f.Want),
+			witness{Seed: run.Seed, Case: -1 - ci, Config: c.cfg, Ops: c.ops, Step: f.Step, Failure: f, Minimal: c.ops, MinimalFailure: f})
+	}
+}
+
 // replay re-runs the history named in a witness file (histories are functions of
 // (seed, case index, tier) only).
 func replay(file string) {
@@ -888,8 +985,13 @@ func replay(file string) {
 	if doc.Tier != "" {
 		run.Tier = doc.Tier
 	}
-	fmt.Printf("replaying history %d of seed %d\n", doc.Witness.Case, run.Seed)
-	runCase(doc.Witness.Case)
+	if doc.Witness.Case < 0 {
+		fmt.Println("replaying the canaries")
+		runCanaries()
+	} else {
+		fmt.Printf("replaying history %d of seed %d\n", doc.Witness.Case, run.Seed)
+		runCase(doc.Witness.Case)
+	}
 	run.Nontrivial("replay-1")
 	run.Nontrivial("replay-2")
 	run.Finish(0)
